@@ -248,6 +248,35 @@ def complete_prefers_parent(rec, F):
         rec.finding(R, "F4.complete/parent-first", "Fiber::complete does not return parent.filter(is_pending)…or_else(get_runnable)", loc=fn.loc, fn=fn.path)
 
 
+def complete_releases_links(rec, F):
+    R = rec.rule("F4.complete-links", "a fiber that has completed lets go of what only a running fiber needs: complete() clears its channel list and its parent link. A completed fiber stays reachable from its children's parent pointers, so a link kept here retains the whole chain of finished ancestors (and the collector recurses along it)")
+    fn = F.fn(FIBER + "::complete")
+    if fn is None:
+        rec.anchor_lost("F4.complete-links", "Fiber::complete")
+        return
+    clears_channels = any(lastseg(t["f"]) == "clear" and "channels" in str(sem.desc_operand(fn, t["args"][0])) for _, t in fn.calls())
+    clears_parent = False
+    for bi, si, s in fn.stmts():
+        if sem.place_has_field(s["d"], FIBER, "parent"):
+            r = s["r"]
+            src = r
+            if r["k"] == "use" and op_local(r["a"]) is not None:
+                sd = fn.single_def(op_local(r["a"]))
+                if sd and sd[0] == "assign":
+                    src = sd[1]
+            if (src["k"] == "agg" and src.get("adt", "").endswith("Option::None")) or (src["k"] == "use" and "None" in str(src["a"].get("dbg", ""))):
+                clears_parent = True
+    for bi, t in fn.calls():
+        if lastseg(t["f"]) == "take" and "parent" in str(sem.desc_operand(fn, t["args"][0])):
+            clears_parent = True
+    rec.inst(R, "complete clears channels", ok=clears_channels, loc=fn.loc)
+    rec.inst(R, "complete clears parent", ok=clears_parent, loc=fn.loc)
+    if not clears_channels:
+        rec.finding(R, "F4.complete-links/channels", "Fiber::complete no longer clears the fiber's channel list: a finished fiber keeps every channel it used (and their buffered values) alive", loc=fn.loc, fn=fn.path)
+    if not clears_parent:
+        rec.finding(R, "F4.complete-links/parent", "Fiber::complete keeps the parent link of a finished fiber: a chain of fibers that each launch the next and finish (a relay) retains every ancestor, and tracing recurses along the chain until the host stack overflows", loc=fn.loc, fn=fn.path)
+
+
 def findability(rec, F):
     R = rec.rule("F4.find", "every user-reachable operation that changes a channel's state registers the channel with the acting fiber (add_used_channel) or wakes a waiter itself (wake-ups are lazy)")
     CH = "laythe_core::object::channel::Channel"
